@@ -110,6 +110,7 @@ class Engine:
         self.second_ws = second_ws
         self.last_footprint = None
         self.pending_victims: set[str] = set()
+        self.parent_removed: set[str] = set()  # flat nodes the library sweeps lazily (or never)
         self.freed = 0
         from geoh5py.workspace import Workspace
 
@@ -189,6 +190,8 @@ class Engine:
                     rec.fail(f"{self.prop}.op-raises", op=kind, cls=op.get("cls", ""), attr=f"{type(exc).__name__}@{fn}", detail=f"{op} -> {op['raised']}")
                     self.aborted = op
                 self.log.append(op)
+                if os.environ.get("GVM_TRACE"):
+                    print("OP", {k: v for k, v in op.items() if k != "removed"}, flush=True)
                 rec.see("op:" + kind)
                 if not ok:
                     break
@@ -242,9 +245,15 @@ class Engine:
                 avail.append((k, w))
             elif k == "move" and (objs or grps) and (len(grps) >= 1):
                 avail.append((k, w))
+            elif k in ("move_data", "add_data_fail") and objs:
+                avail.append((k, w))
+            elif k == "pg_create_empty" and objs:
+                avail.append((k, w))
             elif k in ("pg_add",) and any(self._pg_candidates(o) for o in objs):
                 avail.append((k, w))
-            elif k in ("pg_remove_data", "pg_delete") and any(o.pgs for o in objs):
+            elif k == "pg_remove_data" and any(any(m for m in o.pgs.values()) for o in objs):
+                avail.append((k, w))
+            elif k == "pg_delete" and any(o.pgs for o in objs):
                 avail.append((k, w))
             elif k == "remove_protected" and (objs or data):
                 avail.append((k, w))
@@ -383,6 +392,65 @@ class Engine:
         self.ent(n.uid).parent = self.ent(t)
         n.parent = t
 
+    def op_move_data(self, op):
+        """Re-parent a data entity to another object that can hold it (same element count)."""
+        cands = [d for d in self.model.of_kind("data") if d.dkind in VALUE_KINDS]
+        if not cands:
+            raise ExpectedRefusal("no data")
+        d = self.rng.choice(cands)
+        src = self.ent(d.parent)
+        n = gen.n_for(src, d.assoc) if d.assoc in ("VERTEX", "CELL") else None
+        targets = []
+        for o in self.model.of_kind("object"):
+            if o.uid == d.parent:
+                continue
+            e = self.ent(o.uid)
+            if d.assoc == "OBJECT" or (gen.n_for(e, d.assoc) == n and n):
+                if not any(self.model.nodes[c].name == d.name for c in self.model.children(o.uid)):
+                    targets.append(o)
+        if not targets:
+            raise ExpectedRefusal("no compatible object")
+        t = self.rng.choice(targets)
+        op.update(cls=d.cls, target=d.uid, to=t.uid, frm=d.parent, in_pgs=self._pg_count(d))
+        fp = self.last_footprint
+        fp["links"].update({"Objects/" + br(t.uid), "Objects/" + br(d.parent)})
+        fp["content"].update({path_of(d), "Objects/" + br(d.parent)})
+        fp["any_type"] = True
+        self.ent(d.uid).parent = self.ent(t.uid)
+        old = self.model.nodes[d.parent]
+        for pgname in list(old.pgs):
+            if d.uid in old.pgs[pgname]:
+                old.pgs[pgname].remove(d.uid)
+                if not old.pgs[pgname]:
+                    del old.pgs[pgname]
+        d.parent = t.uid
+
+    def op_add_data_fail(self, op):
+        """A write that fails half-way (h5py rejects the compression level): the file must stay valid."""
+        o = self.rng.choice(self.model.of_kind("object"))
+        obj = self.ent(o.uid)
+        assoc = self.rng.choice(gen.associations_for(obj))
+        if assoc == "OBJECT":
+            raise ExpectedRefusal("no array association")
+        name = self.new_name("bad")
+        spec, _exp = gen.data_spec(obj, "float", assoc, self.rng, tag=self.counter)
+        op.update(cls=o.cls, target=o.uid, name=name, expect="raises")
+        fp = self.last_footprint
+        fp["create"], fp["any_type"] = True, True
+        fp["links"].add("Objects/" + br(o.uid))
+        try:
+            obj.add_data({name: spec}, compression=12)
+        except Exception as exc:  # noqa: BLE001
+            op["raised_expected"] = type(exc).__name__
+            self.rec.see("failed-writes")
+        else:
+            self.rec.see("failed-writes-accepted")
+        for c in obj.children:
+            if not snap._is_pg(c) and str(c.uid) not in self.model.nodes:
+                cn = Node(str(c.uid), "data", type(c).__name__, o.uid, c.name)
+                cn.dkind = "auto"
+                self.model.nodes[cn.uid] = cn
+
     def _learn_copy(self, src_uid, new_ent, parent_uid, with_children, model=None):
         """Mirror a copy in the model; children are matched by name and class under the copy."""
         m = self.model
@@ -494,6 +562,8 @@ class Engine:
             vn = self.model.nodes.pop(v)
             self.model.removed.add(v)
             self.pending_victims.add(path_of(vn))
+            if via == "parent":
+                self.parent_removed.add(path_of(vn))
         if n.kind == "data":
             po = self.model.nodes[n.parent]
             for pgname in list(po.pgs):
@@ -538,7 +608,7 @@ class Engine:
         assoc = self.rng.choice(sorted({c.assoc for c in cands}))
         cands = [c for c in cands if c.assoc == assoc]
         chosen = self.rng.sample(cands, self.rng.randint(1, min(3, len(cands))))
-        existing = [name for name, mem in o.pgs.items() if self.model.nodes[mem[0]].assoc == assoc] if o.pgs else []
+        existing = [name for name, mem in o.pgs.items() if mem and self.model.nodes[mem[0]].assoc == assoc] if o.pgs else []
         if existing and self.rng.random() < 0.5:
             name = self.rng.choice(existing)
         else:
@@ -552,9 +622,22 @@ class Engine:
             if c.uid not in mem:
                 mem.append(c.uid)
 
+    def op_pg_create_empty(self, op):
+        o = self.rng.choice(self.model.of_kind("object"))
+        obj = self.ent(o.uid)
+        assoc = self.rng.choice(["VERTEX", "CELL"])
+        name = self.new_name("pge")
+        op.update(cls=o.cls, target=o.uid, pg=name, assoc=assoc)
+        self.last_footprint["content"].add("Objects/" + br(o.uid))
+        if self.rng.random() < 0.5:
+            obj.create_property_group(name=name, association=assoc)
+        else:
+            obj.find_or_create_property_group(name=name, association=assoc)
+        o.pgs[name] = []
+
     def op_pg_remove_data(self, op):
-        o = self.rng.choice([x for x in self.model.of_kind("object") if x.pgs])
-        name = self.rng.choice(sorted(o.pgs))
+        o = self.rng.choice([x for x in self.model.of_kind("object") if any(m for m in x.pgs.values())])
+        name = self.rng.choice(sorted(k for k, m in o.pgs.items() if m))
         victim = self.rng.choice(o.pgs[name])
         op.update(cls=o.cls, target=o.uid, pg=name, data=victim)
         self.last_footprint["content"].add("Objects/" + br(o.uid))
@@ -673,9 +756,12 @@ DEFAULT_WEIGHTS = {
     "flag": 1.0,
     "metadata": 1.0,
     "move": 1.5,
+    "move_data": 0.8,
+    "add_data_fail": 0.0,
     "copy": 1.5,
     "remove": 2.0,
     "pg_add": 1.5,
+    "pg_create_empty": 0.4,
     "pg_remove_data": 0.7,
     "pg_delete": 0.5,
     "comment": 0.6,
